@@ -43,6 +43,7 @@ type c03Seg struct {
 	Lean   string   // Lean term of the argument
 	Src    string   // Go source of the argument
 	Plain  bool     // the argument is a plain receiver field (or field.String() of an Int)
+	Opaque bool     // the argument could not be modelled: rendered by the opaque `Go.unmodelledStr`
 }
 
 func c03TypeTag(src string) string {
@@ -134,6 +135,48 @@ var c03ExtResult = map[string]string{
 	"*big.Int.String": "string", "*big.Int.Uint64": "uint64", "*big.Int.Int64": "int64", "*big.Int.Text": "string", "*big.Int.Bytes": "[]byte",
 	"path.Join": "string", "path.Clean": "string", "path/filepath.Join": "string",
 }
+
+// the functions lean/FxVerif/Model/C03Go.lean (and C03Fmt.lean) define — keep in sync.  A generated term that mentions
+// anything else is replaced by the opaque-but-compilable `Go.unmodelledStr "<go source>"`, so that Gen/C03.lean always
+// compiles: the driver then disagrees with the real hash and the proofs (not the Lean build of Gen) stop checking
+var c03Modelled = map[string]bool{
+	"strings_ToLower": true, "strings_ToUpper": true, "strings_HasPrefix": true, "strings_HasSuffix": true, "strings_TrimPrefix": true,
+	"strings_TrimSuffix": true, "strings_TrimSpace": true, "strings_Split": true, "strings_Join": true, "hex_DecodeString": true,
+	"hex_EncodeToString": true, "math_Int_String": true, "conv_string": true, "conv___byte": true, "len": true,
+	"types_ParseFxTarget": true, "types_FxTarget_GetTarget": true, "types_FxTarget_String": true, "types_FxTarget_IsIBC": true,
+	"types_FxTarget_IBCValidate": true, "concatMap": true, "joinMap": true, "unmodelledStr": true, "strconv_FormatUint": true,
+	"strconv_Itoa": true,
+}
+
+var c03FmtModelled = map[string]bool{
+	"fmt_d_uint64": true, "fmt_s_string": true, "fmt_v_string": true, "fmt_x_string": true, "fmt_t_bool": true, "fmt_s_IntString": true,
+	"fmt_v_IntString": true, "fmt_s_sliceString": true, "fmt_v_sliceString": true, "fmt_v_sliceInt": true, "fmt_s_sliceInt": true,
+	"fmt_v_sliceBridgeValidator": true, "fmt_v_bool": true, "fmt_v_uint64": true, "fmt_d_int": true, "fmt_v_int": true, "fmt_x_uint64": true,
+}
+
+var c03ReGoName = regexp.MustCompile(`Go\.([A-Za-z0-9_]+)`)
+var c03ReFmtName = regexp.MustCompile(`\bfmt_[A-Za-z0-9_]+`)
+
+// c03Compilable: does the term only mention modelled functions
+func c03Compilable(term string) bool {
+	for _, m := range c03ReGoName.FindAllStringSubmatch(term, -1) {
+		if !c03Modelled[m[1]] {
+			return false
+		}
+	}
+	for _, m := range c03ReFmtName.FindAllString(term, -1) {
+		if !c03FmtModelled[m] {
+			return false
+		}
+	}
+	return true
+}
+
+func c03Opaque(src string) string {
+	return "Go.unmodelledStr " + leanStr(strings.Join(strings.Fields(src), " "))
+}
+
+func c03IsBuilder(t string) bool { return t == "strings.Builder" || t == "bytes.Buffer" }
 
 func c03IsInt(t string) bool { return t == "cosmossdk_io_math.Int" || t == "sdkmath.Int" || t == "Int" }
 
@@ -340,6 +383,9 @@ func (x *c03Tr) call(n *ast.CallExpr) c03Val {
 		}
 		// method call on an expression
 		recv := x.expr(f.X)
+		if c03IsBuilder(recv.Type) && f.Sel.Name == "String" && len(n.Args) == 0 {
+			return c03Val{Lean: recv.Lean, Type: "string", Fields: recv.Fields}
+		}
 		as, fs := x.args(n.Args)
 		fs = c03Union(recv.Fields, fs)
 		switch {
@@ -426,6 +472,10 @@ func (x *c03Tr) sprintf(call *ast.CallExpr) c03Val {
 				}
 			}
 		}
+		if !c03Compilable(fmt.Sprintf("fmt_%s_%s %s", seg.Verb, seg.Tag, seg.Lean)) {
+			// the argument goes through something that is not modelled: an opaque string, so that the file still compiles
+			seg.Lean, seg.Tag, seg.Verb, seg.Plain, seg.Opaque = c03Opaque(seg.Src), "string", "s", false, true
+		}
 		segs = append(segs, seg)
 		i = j
 	}
@@ -460,6 +510,262 @@ func (x *c03Tr) sprintf(call *ast.CallExpr) c03Val {
 		expr = "[]"
 	}
 	return c03Val{Lean: expr, Type: "string", Fields: fields, Segs: segs, Format: format}
+}
+
+// ---------------------------------------------------------------------------------------------------------
+// statements of a ClaimHash body: local definitions, string builders, loops that write list elements into a builder
+
+func (x *c03Tr) firstLine(n ast.Node) string { return strings.SplitN(x.c.src(n), "\n", 2)[0] }
+
+// builderWrite recognises b.WriteString(e) / b.WriteByte(c) / b.WriteRune(c) / fmt.Fprintf(&b, format, args...) on a
+// known builder and returns the builder's name and the Lean term of what is appended
+func (x *c03Tr) builderWrite(s ast.Stmt) (string, c03Val, bool) {
+	es, ok := s.(*ast.ExprStmt)
+	if !ok {
+		return "", c03Val{}, false
+	}
+	ce, ok := es.X.(*ast.CallExpr)
+	if !ok {
+		return "", c03Val{}, false
+	}
+	se, ok := ce.Fun.(*ast.SelectorExpr)
+	if !ok {
+		return "", c03Val{}, false
+	}
+	if id, ok := se.X.(*ast.Ident); ok {
+		if b, known := x.env[id.Name]; known && c03IsBuilder(b.Type) && len(ce.Args) == 1 {
+			switch se.Sel.Name {
+			case "WriteString":
+				return id.Name, x.expr(ce.Args[0]), true
+			case "WriteByte", "WriteRune":
+				v := x.expr(ce.Args[0])
+				return id.Name, c03Val{Lean: "[" + v.Lean + "]", Type: "string", Fields: v.Fields}, true
+			}
+		}
+		if id.Name == "fmt" && se.Sel.Name == "Fprintf" && len(ce.Args) >= 2 {
+			if u, ok := ce.Args[0].(*ast.UnaryExpr); ok && u.Op == token.AND {
+				if bid, ok := u.X.(*ast.Ident); ok {
+					if b, known := x.env[bid.Name]; known && c03IsBuilder(b.Type) {
+						v := x.sprintf(&ast.CallExpr{Fun: ce.Fun, Args: ce.Args[1:]})
+						v.Segs = nil
+						return bid.Name, v, true
+					}
+				}
+			}
+		}
+	}
+	return "", c03Val{}, false
+}
+
+func c03Append(a, b c03Val) c03Val {
+	l := c03Paren(a.Lean) + " ++ " + c03Paren(b.Lean)
+	if a.Lean == "([] : Str)" {
+		l = b.Lean
+	}
+	return c03Val{Lean: l, Type: a.Type, Fields: c03Union(a.Fields, b.Fields)}
+}
+
+// poison: every variable an unmodelled statement assigns or writes to becomes an opaque string
+func (x *c03Tr) poison(n ast.Node) {
+	ast.Inspect(n, func(m ast.Node) bool {
+		switch t := m.(type) {
+		case *ast.AssignStmt:
+			for _, l := range t.Lhs {
+				if id, ok := l.(*ast.Ident); ok && id.Name != "_" {
+					x.env[id.Name] = c03Val{Lean: c03Opaque(x.firstLine(t)), Type: "string"}
+				}
+			}
+		case *ast.CallExpr:
+			if se, ok := t.Fun.(*ast.SelectorExpr); ok {
+				if id, ok := se.X.(*ast.Ident); ok {
+					if b, known := x.env[id.Name]; known && c03IsBuilder(b.Type) {
+						x.env[id.Name] = c03Val{Lean: c03Opaque(x.firstLine(t)), Type: b.Type, Fields: b.Fields}
+					}
+				}
+			}
+		}
+		return true
+	})
+}
+
+func (x *c03Tr) elemType(listType string) string {
+	switch listType {
+	case "[]string":
+		return "string"
+	case "[]cosmossdk_io_math.Int", "[]sdkmath.Int":
+		return "cosmossdk_io_math.Int"
+	case "[]uint64":
+		return "uint64"
+	}
+	if strings.HasPrefix(listType, "[]") {
+		if x.c.structs(x.rel)[listType[2:]] != nil {
+			return "@" + x.rel + "#" + listType[2:]
+		}
+	}
+	return ""
+}
+
+// stmts translates a statement list; onReturn is called for return statements; the result lists what is not modelled
+func (x *c03Tr) stmts(list []ast.Stmt, onReturn func(*ast.ReturnStmt)) (problems []string) {
+	c := x.c
+	notModelled := func(s ast.Stmt) {
+		problems = append(problems, "statement not modelled: "+x.firstLine(s))
+		x.poison(s)
+	}
+	for _, s := range list {
+		switch n := s.(type) {
+		case *ast.AssignStmt:
+			switch {
+			case len(n.Lhs) == len(n.Rhs):
+				vals := make([]c03Val, len(n.Rhs))
+				for i := range n.Rhs {
+					if cl, ok := n.Rhs[i].(*ast.CompositeLit); ok && c03IsBuilder(c.src(cl.Type)) && len(cl.Elts) == 0 {
+						vals[i] = c03Val{Lean: "([] : Str)", Type: c.src(cl.Type)}
+						continue
+					}
+					vals[i] = x.expr(n.Rhs[i])
+				}
+				for i, l := range n.Lhs {
+					if id, ok := l.(*ast.Ident); ok && id.Name != "_" {
+						x.env[id.Name] = vals[i]
+					} else if !ok {
+						problems = append(problems, "assignment to "+c.src(l))
+					}
+				}
+			case len(n.Rhs) == 1 && len(n.Lhs) == 2:
+				// v, err := f(...): the first result
+				if id, ok := n.Lhs[0].(*ast.Ident); ok && id.Name != "_" {
+					x.env[id.Name] = x.expr(n.Rhs[0])
+				}
+			default:
+				notModelled(s)
+			}
+		case *ast.DeclStmt:
+			// var a, b strings.Builder
+			gd, ok := n.Decl.(*ast.GenDecl)
+			done := false
+			if ok && gd.Tok == token.VAR {
+				done = true
+				for _, sp := range gd.Specs {
+					vs := sp.(*ast.ValueSpec)
+					switch {
+					case vs.Type != nil && c03IsBuilder(c.src(vs.Type)) && len(vs.Values) == 0:
+						for _, nm := range vs.Names {
+							x.env[nm.Name] = c03Val{Lean: "([] : Str)", Type: c.src(vs.Type)}
+						}
+					case vs.Type != nil && c.src(vs.Type) == "string" && len(vs.Values) == 0:
+						for _, nm := range vs.Names {
+							x.env[nm.Name] = c03Val{Lean: "([] : Str)", Type: "string"}
+						}
+					case len(vs.Values) == len(vs.Names):
+						for i, nm := range vs.Names {
+							x.env[nm.Name] = x.expr(vs.Values[i])
+						}
+					default:
+						done = false
+					}
+				}
+			}
+			if !done {
+				notModelled(s)
+			}
+		case *ast.ExprStmt:
+			if b, v, ok := x.builderWrite(s); ok {
+				x.env[b] = c03Append(x.env[b], v)
+			} else {
+				notModelled(s)
+			}
+		case *ast.RangeStmt:
+			if !x.rangeLoop(n) {
+				notModelled(s)
+			}
+		case *ast.ReturnStmt:
+			onReturn(n)
+		default:
+			notModelled(s)
+		}
+	}
+	return problems
+}
+
+// rangeLoop: `for i, e := range L { [if i > 0 { b.WriteString(sep) }] b.WriteString(f(e)) … }` appends to every builder b it
+// writes the concat-map (or separator-joined map) of its per-element text over L
+func (x *c03Tr) rangeLoop(n *ast.RangeStmt) bool {
+	c := x.c
+	list := x.expr(n.X)
+	et := x.elemType(list.Type)
+	if et == "" || !c03Compilable(list.Lean) {
+		return false
+	}
+	vName, iName := "", ""
+	if id, ok := n.Value.(*ast.Ident); ok && id.Name != "_" {
+		vName = id.Name
+	}
+	if id, ok := n.Key.(*ast.Ident); ok && id.Name != "_" {
+		iName = id.Name
+	}
+	saved := map[string]c03Val{}
+	for k, v := range x.env {
+		saved[k] = v
+	}
+	restore := func() { x.env = saved }
+	inner := map[string]c03Val{}
+	for k, v := range saved {
+		inner[k] = v
+	}
+	if vName != "" {
+		inner[vName] = c03Val{Lean: "x", Type: et, Fields: list.Fields}
+	}
+	x.env = inner
+	type acc struct {
+		sep   *c03Val
+		parts []c03Val
+	}
+	accs := map[string]*acc{}
+	var order []string
+	get := func(b string) *acc {
+		if accs[b] == nil {
+			accs[b] = &acc{}
+			order = append(order, b)
+		}
+		return accs[b]
+	}
+	for _, st := range n.Body.List {
+		if b, v, ok := x.builderWrite(st); ok {
+			get(b).parts = append(get(b).parts, v)
+			continue
+		}
+		// if i > 0 { b.WriteString(sep) } as the first thing written to b
+		if is, ok := st.(*ast.IfStmt); ok && is.Init == nil && is.Else == nil && iName != "" && len(is.Body.List) == 1 {
+			cond := c.src(is.Cond)
+			if cond == iName+" > 0" || cond == iName+" != 0" || cond == "0 < "+iName {
+				if b, v, ok := x.builderWrite(is.Body.List[0]); ok && len(get(b).parts) == 0 && get(b).sep == nil && len(v.Fields) == 0 {
+					vv := v
+					get(b).sep = &vv
+					continue
+				}
+			}
+		}
+		restore()
+		return false
+	}
+	restore()
+	for _, b := range order {
+		a := accs[b]
+		if len(a.parts) == 0 {
+			return false
+		}
+		body := a.parts[0]
+		for _, p := range a.parts[1:] {
+			body = c03Val{Lean: c03Paren(body.Lean) + " ++ " + c03Paren(p.Lean), Fields: c03Union(body.Fields, p.Fields)}
+		}
+		term := "Go.concatMap (fun x => " + body.Lean + ") " + c03Paren(list.Lean)
+		if a.sep != nil {
+			term = "Go.joinMap " + c03Paren(a.sep.Lean) + " (fun x => " + body.Lean + ") " + c03Paren(list.Lean)
+		}
+		x.env[b] = c03Append(x.env[b], c03Val{Lean: term, Type: "string", Fields: c03Union(list.Fields, body.Fields)})
+	}
+	return true
 }
 
 // ---------------------------------------------------------------------------------------------------------
@@ -758,6 +1064,176 @@ func (c *ctxT) c03ReadFields(tn string, fields map[string]bool) (reads []string,
 }
 
 // ---------------------------------------------------------------------------------------------------------
+// call structure of Keeper.Attest: every call of TryAttestation reachable from it with the voter's claim in hand — which
+// attestation and which claim object it is handed, under which guard
+
+type c03Site struct {
+	Fn, Where, AttSrc, ClaimSrc, Guard string
+	AttSel, ClaimSel                string
+	InLoop                          bool
+}
+
+func (c *ctxT) c03TrySites() (sites []c03Site, problems []string) {
+	start := c.findFunc(c03Keeper, "Keeper", "Attest")
+	if start == nil {
+		return nil, []string{"Keeper.Attest not found"}
+	}
+	claimParamOf := func(fd *ast.FuncDecl) string {
+		for _, p := range fd.Type.Params.List {
+			if c.src(p.Type) == "types.ExternalClaim" && len(p.Names) == 1 {
+				return p.Names[0].Name
+			}
+		}
+		return ""
+	}
+	var walk func(fd *ast.FuncDecl, claimParam string, guards []string, inLoop bool, depth int)
+	walk = func(fd *ast.FuncDecl, claimParam string, guards []string, inLoop bool, depth int) {
+		voted := map[string]bool{}
+		recordedOf := map[string]string{}
+		ast.Inspect(fd.Body, func(n ast.Node) bool {
+			as, ok := n.(*ast.AssignStmt)
+			if !ok || len(as.Rhs) != 1 {
+				return true
+			}
+			ce, ok := as.Rhs[0].(*ast.CallExpr)
+			if !ok {
+				return true
+			}
+			lhs, ok := as.Lhs[0].(*ast.Ident)
+			if !ok {
+				return true
+			}
+			fn := c.src(ce.Fun)
+			if strings.HasSuffix(fn, ".GetAttestation") && len(ce.Args) == 3 && c.src(ce.Args[1]) == claimParam+".GetEventNonce()" && c.src(ce.Args[2]) == claimParam+".ClaimHash()" {
+				voted[lhs.Name] = true
+			}
+			if strings.HasSuffix(fn, "UnpackAttestationClaim") && len(ce.Args) == 2 {
+				recordedOf[lhs.Name] = c.src(ce.Args[1])
+			}
+			return true
+		})
+		var calls func(n ast.Node, guards []string, inLoop bool)
+		var block func(list []ast.Stmt, guards []string, inLoop bool)
+		calls = func(n ast.Node, guards []string, inLoop bool) {
+			if n == nil {
+				return
+			}
+			ast.Inspect(n, func(m ast.Node) bool {
+				if _, isBlock := m.(*ast.BlockStmt); isBlock {
+					return false // nested blocks are walked by `block` with their own guard
+				}
+				if fl, isFn := m.(*ast.FuncLit); isFn {
+					block(fl.Body.List, append(append([]string{}, guards...), "<closure>"), true)
+					return false
+				}
+				ce, ok := m.(*ast.CallExpr)
+				if !ok {
+					return true
+				}
+				se, ok := ce.Fun.(*ast.SelectorExpr)
+				if !ok {
+					return true
+				}
+				if se.Sel.Name == "TryAttestation" && len(ce.Args) == 3 {
+					st := c03Site{Fn: fd.Name.Name, Where: c.pos(ce), AttSrc: c.src(ce.Args[1]), ClaimSrc: c.src(ce.Args[2]),
+						Guard: strings.Join(guards, " && "), InLoop: inLoop, AttSel: "stored", ClaimSel: "other"}
+					if voted[st.AttSrc] {
+						st.AttSel = "voted"
+					}
+					switch {
+					case st.ClaimSrc == claimParam:
+						st.ClaimSel = "voter"
+					case recordedOf[st.ClaimSrc] == st.AttSrc && st.AttSrc != "":
+						st.ClaimSel = "recorded"
+					}
+					sites = append(sites, st)
+					return true
+				}
+				// a keeper method that is handed the voter's claim: follow
+				for i, a := range ce.Args {
+					if id, ok := a.(*ast.Ident); ok && id.Name == claimParam && depth < 4 {
+						if callee := c.findFunc(c03Keeper, "Keeper", se.Sel.Name); callee != nil && callee.Body != nil && callee != fd {
+							// the parameter that receives it
+							idx := 0
+							name := ""
+							for _, p := range callee.Type.Params.List {
+								for _, nm := range p.Names {
+									if idx == i {
+										name = nm.Name
+									}
+									idx++
+								}
+							}
+							if name != "" && se.Sel.Name != "TryAttestation" {
+								hasTry := false
+								ast.Inspect(callee.Body, func(q ast.Node) bool {
+									if c2, ok := q.(*ast.CallExpr); ok {
+										if s2, ok := c2.Fun.(*ast.SelectorExpr); ok && s2.Sel.Name == "TryAttestation" {
+											hasTry = true
+										}
+									}
+									return true
+								})
+								if hasTry {
+									walk(callee, name, append(append([]string{}, guards...), "<in "+se.Sel.Name+">"), inLoop, depth+1)
+								}
+							}
+						}
+					}
+				}
+				return true
+			})
+		}
+		block = func(list []ast.Stmt, guards []string, inLoop bool) {
+			for _, s := range list {
+				switch n := s.(type) {
+				case *ast.IfStmt:
+					calls(n.Init, guards, inLoop)
+					calls(n.Cond, guards, inLoop)
+					g := append(append([]string{}, guards...), c.src(n.Cond))
+					block(n.Body.List, g, inLoop)
+					if n.Else != nil {
+						ge := append(append([]string{}, guards...), "!("+c.src(n.Cond)+")")
+						if eb, ok := n.Else.(*ast.BlockStmt); ok {
+							block(eb.List, ge, inLoop)
+						} else {
+							block([]ast.Stmt{n.Else}, ge, inLoop)
+						}
+					}
+				case *ast.ForStmt:
+					calls(n.Init, guards, inLoop)
+					calls(n.Cond, guards, true)
+					block(n.Body.List, guards, true)
+				case *ast.RangeStmt:
+					calls(n.X, guards, inLoop)
+					block(n.Body.List, guards, true)
+				case *ast.BlockStmt:
+					block(n.List, guards, inLoop)
+				case *ast.SwitchStmt:
+					calls(n.Init, guards, inLoop)
+					calls(n.Tag, guards, inLoop)
+					for _, cc := range n.Body.List {
+						block(cc.(*ast.CaseClause).Body, append(append([]string{}, guards...), "<case>"), inLoop)
+					}
+				default:
+					calls(s, guards, inLoop)
+				}
+			}
+		}
+		block(fd.Body.List, guards, inLoop)
+	}
+	cp := claimParamOf(start)
+	if cp == "" {
+		return nil, []string{"Keeper.Attest has no types.ExternalClaim parameter"}
+	}
+	walk(start, cp, nil, false, 0)
+	if len(sites) == 0 {
+		problems = append(problems, "no TryAttestation call reachable from Keeper.Attest")
+	}
+	return sites, problems
+}
+
+// ---------------------------------------------------------------------------------------------------------
 
 func extractC03(c *ctxT) {
 	structs := c.structs(c03Pkg)
@@ -806,55 +1282,23 @@ func extractC03(c *ctxT) {
 			tr := &c03Tr{c: c, rel: c03Pkg, imports: imports(file), recvVar: recvVar, ftype: ftype, env: map[string]c03Val{}}
 			// straight-line body: local definitions, then `return tmhash.Sum([]byte(<path expression>))`
 			var pathVal *c03Val
-			for _, s := range fd.Body.List {
-				switch n := s.(type) {
-				case *ast.AssignStmt:
-					switch {
-					case len(n.Lhs) == len(n.Rhs):
-						vals := make([]c03Val, len(n.Rhs))
-						for i := range n.Rhs {
-							vals[i] = tr.expr(n.Rhs[i])
-						}
-						for i, l := range n.Lhs {
-							if id, ok := l.(*ast.Ident); ok && id.Name != "_" {
-								tr.env[id.Name] = vals[i]
-							} else if !ok {
-								cl.Problems = append(cl.Problems, "assignment to "+c.src(l))
-							}
-						}
-					case len(n.Rhs) == 1 && len(n.Lhs) == 2:
-						// v, err := f(...): the first result
-						if id, ok := n.Lhs[0].(*ast.Ident); ok && id.Name != "_" {
-							tr.env[id.Name] = tr.expr(n.Rhs[0])
-						}
-					default:
-						cl.Problems = append(cl.Problems, "statement not modelled: "+strings.SplitN(c.src(s), "\n", 2)[0])
-					}
-				case *ast.ReturnStmt:
-					if len(n.Results) == 1 {
-						cl.HashFn = c.src(n.Results[0])
-						// tmhash.Sum([]byte(X))
-						if ce, ok := n.Results[0].(*ast.CallExpr); ok && len(ce.Args) == 1 {
-							if conv, ok := ce.Args[0].(*ast.CallExpr); ok && len(conv.Args) == 1 {
-								if _, isArr := conv.Fun.(*ast.ArrayType); isArr {
-									v := tr.expr(conv.Args[0])
-									pathVal = &v
-									if _, isId := conv.Args[0].(*ast.Ident); !isId {
-										// normalise: the hashed expression is named `path` in the Lean text
-										cl.HashFn = c.src(ce.Fun) + "([]byte(path))"
-									} else {
-										cl.HashFn = c.src(ce.Fun) + "([]byte(path))"
-									}
-								}
-							}
-						}
-					}
-				case *ast.DeclStmt:
-					cl.Problems = append(cl.Problems, "statement not modelled: "+strings.SplitN(c.src(s), "\n", 2)[0])
-				default:
-					cl.Problems = append(cl.Problems, "statement not modelled: "+strings.SplitN(c.src(s), "\n", 2)[0])
+			cl.Problems = append(cl.Problems, tr.stmts(fd.Body.List, func(n *ast.ReturnStmt) {
+				if len(n.Results) != 1 {
+					return
 				}
-			}
+				cl.HashFn = c.src(n.Results[0])
+				// tmhash.Sum([]byte(X))
+				if ce, ok := n.Results[0].(*ast.CallExpr); ok && len(ce.Args) == 1 {
+					if conv, ok := ce.Args[0].(*ast.CallExpr); ok && len(conv.Args) == 1 {
+						if _, isArr := conv.Fun.(*ast.ArrayType); isArr {
+							v := tr.expr(conv.Args[0])
+							pathVal = &v
+							// normalise: the hashed expression is named `path` in the Lean text
+							cl.HashFn = c.src(ce.Fun) + "([]byte(path))"
+						}
+					}
+				}
+			})...)
 			if pathVal == nil {
 				// no recognisable hashed expression: fall back to the first fmt.Sprintf of the body
 				var call *ast.CallExpr
@@ -869,8 +1313,12 @@ func extractC03(c *ctxT) {
 					pathVal = &v
 				} else {
 					cl.Problems = append(cl.Problems, "no hashed path expression found")
-					pathVal = &c03Val{Lean: "Go.UNSUPPORTED_no_path", Type: ""}
+					pathVal = &c03Val{Lean: c03Opaque("no hashed path expression found"), Type: "string"}
 				}
+			}
+			if !c03Compilable(pathVal.Lean) {
+				cl.Problems = append(cl.Problems, "hashed expression not modelled: "+pathVal.Lean)
+				pathVal.Lean, pathVal.Segs = c03Opaque(pathVal.Lean), nil
 			}
 			cl.Path, cl.Segs, cl.Format, cl.Hashed = pathVal.Lean, pathVal.Segs, pathVal.Format, pathVal.Fields
 			// ValidateBasic
@@ -1023,6 +1471,28 @@ func extractC03(c *ctxT) {
 	}
 	fmt.Fprintf(&sb, "-/\ndef externalClaimReads : List String := %s\n\n", leanList(gl))
 	c.facts["C03.externalClaimReads"] = sortedKeys(generic)
+
+	// call structure of Attest
+	sites, sprob := c.c03TrySites()
+	sb.WriteString("/-- every call of `TryAttestation` reachable from `Keeper.Attest` with the voter's claim in hand: which attestation it is\nhanded (`voted` = the one looked up under the voter's own `nonce ‖ ClaimHash`, `stored` = any other stored one) and which\nclaim object (`voter` = the claim being submitted, `recorded` = the claim recorded in that very attestation)\n")
+	for _, st := range sites {
+		fmt.Fprintf(&sb, "  %s %s: TryAttestation(ctx, %s, %s)  when %s\n", st.Where, st.Fn, st.AttSrc, st.ClaimSrc, strings.ReplaceAll(st.Guard, "-/", "- /"))
+	}
+	for _, pr := range sprob {
+		fmt.Fprintf(&sb, "  extractor: %s\n", pr)
+	}
+	sb.WriteString("-/\ndef attestTrySites : List TrySite := [\n")
+	var fsites []map[string]any
+	for i, st := range sites {
+		sep := ","
+		if i == len(sites)-1 {
+			sep = ""
+		}
+		fmt.Fprintf(&sb, "  { att := .%s, claim := .%s, inLoop := %v, fn := %s, guard := %s }%s\n", st.AttSel, st.ClaimSel, st.InLoop, leanStr(st.Fn), leanStr(st.Guard), sep)
+		fsites = append(fsites, map[string]any{"fn": st.Fn, "where": st.Where, "att": st.AttSel, "claim": st.ClaimSel, "in_loop": st.InLoop, "guard": st.Guard, "att_src": st.AttSrc, "claim_src": st.ClaimSrc})
+	}
+	sb.WriteString("]\n\n")
+	c.facts["C03.attestTrySites"] = fsites
 
 	// chain table
 	type chainT struct{ name, kind, where string }
